@@ -1002,7 +1002,7 @@ impl Check for C04 {
             }
         });
         st.exhaustive.push(format!("single-feature sweep: {} files (22 hostile strings x 6 positions, 3 comment kinds x 10 texts x 12 slots, 8 layout features alone (x4 placements) and in all 28 pairs, 7 salience values, 6 attributes x 2 spellings) on one fixed rule", sweep.len()));
-        let per = cli.n(300, 10_000);
+        let per = cli.n(1_500, 25_000);
         shards(cli, nthreads, st, |_shard, rng, st| {
             for _ in 0..per {
                 if cli.expired() {
